@@ -116,6 +116,7 @@ class Guards:
         fs = []
         for (d, s, lab) in self.dominating_edges(B):
             fs += self.edge_facts(d, s, lab)
+        fs += type_invariants(self.tb)
         # flatten conjunctions produced by `&&` lowered to nested switches is automatic
         out = []
         for f in fs:
@@ -126,6 +127,24 @@ class Guards:
 
     def facts_on_edge(self, d, s, lab):
         return self.facts_at(d) + self.edge_facts(d, s, lab)
+
+
+def type_invariants(tb):
+    """facts that hold for arguments by their type's invariant.
+    I-BR (established by C14.B1/B2): a `BytesRef<H>` holds a slice with len >= size_of::<H>(), len % 8 == 0."""
+    out = []
+    F = tb.F
+    body = tb.body
+    for i in range(1, body.argc + 1):
+        ty = body.local_ty(i)
+        info = F.ty(ty) or {}
+        if info.get("kind") == "adt" and info.get("adt", "").endswith("bytes_ref::BytesRef") and info.get("args"):
+            hs = F.size_of(info["args"][0])
+            sl = ("fld", ("arg", i, ty), 0, "bytes", "&[u8]")
+            if hs is not None:
+                out.append(("cmp", "Ge", ("len", sl), ("c", hs)))
+            out.append(("cmp", "Eq", ("bin", "Rem", ("len", sl), ("c", 8), "usize"), ("c", 0)))
+    return out
 
 
 def std_post_call_facts(tb, t, bb):
@@ -256,14 +275,14 @@ def lin(t):
                 if m[0] == "c":
                     mv = m[1]
                     if mv >= 0 and (mv + 1) & mv == 0:
-                        return Lin(0, {("rem", strip(x), mv + 1): 1})
+                        return Lin(0, {("rem", canon(x), mv + 1): 1})
                     inv = (~mv) & ((1 << 64) - 1)
                     if (inv + 1) & inv == 0:
-                        return lin(x).add(Lin(0, {("rem", strip(x), inv + 1): 1}), -1)
+                        return lin(x).add(Lin(0, {("rem", canon(x), inv + 1): 1}), -1)
         if op == "Rem" and t[3][0] == "c" and t[3][1] > 0:
-            return Lin(0, {("rem", strip(t[2]), t[3][1]): 1})
+            return Lin(0, {("rem", canon(t[2]), t[3][1]): 1})
         if op == "Div" and t[3][0] == "c" and t[3][1] > 0:
-            return Lin(0, {("div", strip(t[2]), t[3][1]): 1})
+            return Lin(0, {("div", canon(t[2]), t[3][1]): 1})
         if op == "Rem":
             return Lin(0, {("remv", strip(t[2]), strip(t[3])): 1})
         if op == "Div":
@@ -271,6 +290,11 @@ def lin(t):
     if k == "un" and t[1] == "Not" and t[2][0] == "c":
         return Lin((~t[2][1]) & ((1 << 64) - 1))
     return Lin(0, {strip(t): 1})
+
+
+def canon(t):
+    """canonical (hashable) key of the linear form of t, so that `rem`/`div` atoms of equal values coincide"""
+    return ("lin",) + lin(t).key()
 
 
 def strip(t):
